@@ -83,7 +83,15 @@ fn checked_sub(&self, rhs: &Self) -> (ret__: CtOption<Self>)
 {
         let (result, underflow) = self.sbb(rhs, Limb::ZERO);
 //@+
-    proof { lemma_val_bound(result.limbs@, LIMBS as nat); lemma_val_bound(self.limbs@, LIMBS as nat); lemma_val_bound(rhs.limbs@, LIMBS as nat); }
+    proof {
+        lemma_val_bound(result.limbs@, LIMBS as nat); lemma_val_bound(self.limbs@, LIMBS as nat); lemma_val_bound(rhs.limbs@, LIMBS as nat);
+        lemma_bp_succ(LIMBS as nat);
+        let w = bp(LIMBS as nat); let k = bb(underflow); let d = self.v() - rhs.v();
+        assert(bb(Limb::ZERO) == 0);
+        assert(result.v() - k * w == d);
+        if k == 0 { assert(k * w == 0) by (nonlinear_arith) requires k == 0; lemma_small_mod(d as nat, w as nat); }
+        else { assert(k * w == w) by (nonlinear_arith) requires k == 1; lemma_fundamental_div_mod_converse(d, w, -1, result.v()); }
+    }
 //@-
         CtOption::new(result, underflow.is_zero())
     }
